@@ -33,15 +33,28 @@ def objOf (j : Json) : Except String Obj := do
   | .arr #[st, d] => pure { status := ← statusOf (← fromJson? st), dirty := ← natOf d }
   | _ => throw "obj: [status, dirty] expected"
 
+def pairOf (j : Json) : Except String (Nat × Nat) := do
+  match j with
+  | .arr #[a, b] => pure (← natOf a, ← natOf b)
+  | _ => throw "pair expected"
+
+def linksOf (j : Json) : Except String Links := do
+  pure { view := ← listOf pairOf (← fld j "view"), pendAdd := ← listOf pairOf (← fld j "pendAdd"),
+         pendRem := ← listOf pairOf (← fld j "pendRem"), m2mAdd := [], m2mRem := [], db := ← listOf pairOf (← fld j "db") }
+
 def stateOf (j : Json) : Except String State := do
   pure { objs := ← listOf objOf (← fld j "objs"), queue := ← listOf (optOf natOf) (← fld j "queue"),
-         modified := ← fromJson? (← fld j "modified"), saved := [], trace := [] }
+         modified := ← fromJson? (← fld j "modified"), saved := [], trace := [], lk := ← linksOf (← fld j "links") }
 
 def opOf (j : Json) : Except String HOp := do
   match j with
   | .arr #[.str "read", o] => pure (.read (← natOf o))
   | .arr #[.str "modify", o] => pure (.modify (← natOf o))
   | .arr #[.str "create"] => pure .create
+  | .arr #[.str "link", a, b] => pure (.link (← natOf a) (← natOf b))
+  | .arr #[.str "unlink", a, b] => pure (.unlink (← natOf a) (← natOf b))
+  | .arr #[.str "linkNewOwner", b] => pure (.linkNewOwner (← natOf b))
+  | .arr #[.str "linkNewItem", a] => pure (.linkNewItem (← natOf a))
   | _ => throw "hook op expected"
 
 /-- one scripted hook: (phase, kind, object) ↦ the bodies of its 1st, 2nd, … call and the body of all later calls -/
@@ -75,10 +88,15 @@ def jEvent : Event → Json
   | .before k o => .arr #["before", .str (kindStr k), jNat o]
   | .stmt k o => .arr #["stmt", .str (kindStr k), jNat o]
   | .after k o => .arr #["after", .str (kindStr k), jNat o]
+  | .linkDel a b => .arr #["linkDel", jNat a, jNat b]
+  | .linkIns a b => .arr #["linkIns", jNat a, jNat b]
+def jPairs (l : List (Nat × Nat)) : Json := .arr (l.map (fun p => Json.arr #[jNat p.1, jNat p.2])).toArray
 def jState (s : State) : Json :=
   Json.mkObj [("objs", .arr (s.objs.map (fun o => Json.arr #[.str (statusStr o.status), jNat o.dirty])).toArray),
               ("queue", .arr (s.queue.map (fun e => match e with | some o => jNat o | none => .null)).toArray),
-              ("modified", .bool s.modified), ("trace", .arr (s.trace.map jEvent).toArray)]
+              ("modified", .bool s.modified), ("trace", .arr (s.trace.map jEvent).toArray),
+              ("links", Json.mkObj [("view", jPairs s.lk.view), ("pendAdd", jPairs s.lk.pendAdd), ("pendRem", jPairs s.lk.pendRem),
+                                    ("db", jPairs s.lk.db)])]
 def jResult : Except Err State → Json
   | .ok s => Json.mkObj [("ok", jState s)]
   | .error (.limit s) => Json.mkObj [("error", "limit"), ("state", jState s)]
